@@ -26,9 +26,10 @@ PID = "C18"
 META = None           # the spec's tables (atoms, nodes, units, functions), set before the pool forks
 OPTS = {"open_tags": []}     # tags of the findings that are still open: they switch the machine's deviations on
 
-NUM_CFGS = [1, 2, 3, 4]
-LOG_CFGS = [1, 2, 3, 4, 5, 6, 7, 8]
+NUM_CFGS = [1, 2, 3, 4, 5, 6]
+LOG_CFGS = [1, 2, 3, 4, 5, 6, 7, 8, 9]
 TMPL_CFGS = [1, 2]
+TMPL_DEEP_CFGS = [3, 4]      # whole-segment templates: several references to one node
 
 
 def cfg_text(mode, maxlen, prune, source, cfgs, emit=True, emitmax=99):
@@ -91,9 +92,13 @@ def ev_term(t, fns):
     try:
         if op == "q":
             return float(Fraction(t["n"], t["d"]) * Fraction(10) ** t["e"])
+        if op.startswith("tab:"):
+            return table_unit(op[4:])
         a = [ev_term(x, fns) for x in t["a"]]
-        if op == "add": return a[0] + a[1]
-        if op == "sub": return a[0] - a[1]
+        if op in ("add", "sub"):
+            z = a[0] + a[1] if op == "add" else a[0] - a[1]
+            # a difference at rounding level is a cancellation: exactly zero in the spec's arithmetic
+            return 0.0 if abs(z) <= 1e-13 * max(abs(a[0]), abs(a[1])) else z
         if op == "mul": return a[0] * a[1]
         if op == "div": return a[0] / a[1]
         if op == "neg": return -a[0]
@@ -107,6 +112,17 @@ def ev_term(t, fns):
     except (ZeroDivisionError, OverflowError, ValueError) as e:
         raise Arith(str(e))
     raise ValueError("unknown term " + op)
+
+
+_TAB = {}
+
+
+def table_unit(u):
+    """magnitude of a unit in the library's own unit table (given, DESIGN 4.1), in the coherent unit of its dimension"""
+    if u not in _TAB:
+        from scinumtools.units import settings as S
+        _TAB[u] = float(S.UNIT_STANDARD[u].magnitude)
+    return _TAB[u]
 
 
 def term_has_fn(t):
@@ -175,6 +191,9 @@ def node_line(tok):
 def extra_line(x):
     if x["ty"] == "str":
         return f"{x['name']} str = '{x['str']}'"
+    if x["ty"] == "float2":
+        vals = ",".join("[" + ",".join(dec_text(frac(q)) for q in row) + "]" for row in x["arr"])
+        return f"{x['name']} float[{len(x['arr'])},{len(x['arr'][0])}] = [{vals}]" + (" " + x["u"] if x["u"] else "")
     vals = ",".join(dec_text(frac(q)) for q in x["arr"])
     return f"{x['name']} float[{len(x['arr'])}] = [{vals}]" + (" " + x["u"] if x["u"] else "")
 
@@ -369,7 +388,11 @@ def py_value(name):
             return float(v) if a["kind"] == "fnode" else int(v)
     for x in META["extra"]:
         if x["name"] == name:
-            return x["str"] if x["ty"] == "str" else [float(frac(q)) for q in x["arr"]]
+            if x["ty"] == "str":
+                return x["str"]
+            if x["ty"] == "float2":
+                return [[float(frac(q)) for q in row] for row in x["arr"]]
+            return [float(frac(q)) for q in x["arr"]]
     raise KeyError(name)
 
 
@@ -382,8 +405,7 @@ def seg_string(segs):
         elif sg["k"] == "ref":
             try:
                 v = py_value(sg["ref"])
-                lo, hi = sg["sl"]
-                if lo >= 0:
+                for lo, hi in sg["sl"]:              # one pair per dimension (indices; a range only alone)
                     v = v[lo] if lo == hi else v[lo:hi]
                 out += format(v, sg["fmt"])
             except Exception:
@@ -408,7 +430,9 @@ def replay_num(rec):
     rnd = random.Random(rec["_seed"])
     toks = rec["s"]
     nfn = sum(1 for t in toks if t == "f1(")
-    fns = [rnd.choice(META["fn1"]) for _ in range(nfn)]
+    fcls = {int(i): c for i, c in rec.get("fcls", [])}
+    fns = [rnd.choice([f for f in META["fn1"] if fcls.get(k + 1, "any") == "any" or f["cls"] == "trig"])
+           for k in range(nfn)]
     ftags = sorted({t for f in fns for t in f["tags"]})
     base_tags = ["num"] + list(rec["tags"]) + ftags
     cls = rec["cls"]
@@ -564,7 +588,7 @@ def replay_tmpl(rec):
         checks = [("direct", o, {"template": text})]
         if rec["_embed"] and '"' not in text:
             names = {sg["ref"] for sg in rec["ideal"] + rec["mach"] if sg["k"] == "ref"} | \
-                    {n for n in ("a", "b", "s", "v") if "{?" + n + "}" in text}
+                    {n for n in ("a", "b", "s", "v", "mm") if "{?" + n + "}" in text}
             body = env_text("plain", only=names) + f'x str = ("{text}")\n'
             checks.append(("embedded", obs_parse(body, "x"), {"text": body}))
         for how, ob, scen in checks:
@@ -692,10 +716,12 @@ def deep_items(mode, n, seed, cfg_atoms):
 CFG_ATOMS = {
     # used only to draw deeper strings; the sets themselves are checked against the spec's (a token TLC
     # does not know would make it fail, which is a machinery error)
-    "num": {1: ["a", "150cm", "2"], 2: ["a", "t", "-5cm"], 3: ["c", ".002km", "k"], 4: ["e", "1.5len", "a"]},
+    "num": {1: ["a", "150cm", "2"], 2: ["a", "t", "-5cm"], 3: ["c", ".002km", "k"], 4: ["e", "1.5len", "a"],
+            5: ["f", "w", "90deg"], 6: ["w", "500mrad", "45deg"]},
     "log": {1: ["a", "300cm", "3m+5", "d", "!z"], 2: ["a", "3m+12", ".003km-20", "q", "true"],
             3: ["b", "200cm", "250cm", "f", "d"], 4: ["j", "2", "2.0m", "b", "false"], 5: ["f", "g", "h", "!a", "q"],
-            6: ["e", "8m", "1.5len", "a", "d"], 7: ["a", "3", "3s", "3m-9", "3m+10"], 8: ["3m", "300cm", "4m", "c", "true"]},
+            6: ["e", "8m", "1.5len", "a", "d"], 7: ["a", "3", "3s", "3m-9", "3m+10"], 8: ["3m", "300cm", "4m", "c", "true"],
+            9: ["n", "l", "b", "1.5km", "d"]},
 }
 
 
@@ -704,15 +730,15 @@ def plan(t, sd=0):
     Grammatical numerical expressions have odd length (k atoms, k-1 operators or commas, bracket pairs)."""
     if t == "quick":
         deep = 1 + sd % 3                   # one of the plain atom sets goes to 7 tokens, by seed
-        return [("num", 4, False, NUM_CFGS, 3), ("num", 5, True, [c for c in NUM_CFGS if c != deep], 99),
+        return [("num", 4, False, [1, 2, 3, 4], 3), ("num", 5, True, [c for c in NUM_CFGS if c != deep], 99),
                 ("num", 7, True, [deep], 99),
                 ("log", 3, False, [1, 3], 3), ("log", 5, True, LOG_CFGS, 99),
-                ("tmpl", 5, False, TMPL_CFGS, 4)], {"num": 600, "log": 600}
-    deep = [1 + sd % 8, 1 + (sd + 3) % 8]
-    return [("num", 5, False, NUM_CFGS, 4), ("num", 7, True, NUM_CFGS, 99),
+                ("tmpl", 5, False, TMPL_CFGS, 4), ("tmpl", 9, True, TMPL_DEEP_CFGS, 99)], {"num": 600, "log": 600}
+    deep = [1 + sd % 9, 1 + (sd + 3) % 9]
+    return [("num", 5, False, [1, 2, 3, 4], 4), ("num", 7, True, NUM_CFGS, 99),
             ("log", 4, False, LOG_CFGS, 3), ("log", 6, True, [c for c in LOG_CFGS if c not in deep], 99),
             ("log", 7, True, deep, 99),
-            ("tmpl", 6, False, TMPL_CFGS, 5)], {"num": 6000, "log": 6000}
+            ("tmpl", 6, False, TMPL_CFGS, 5), ("tmpl", 11, True, TMPL_DEEP_CFGS, 99)], {"num": 6000, "log": 6000}
 
 
 def run(replay=None):
